@@ -25,7 +25,10 @@ import (
 	"github.com/goatcms/goatcore/app/goatapp"
 	"github.com/goatcms/goatcore/app/modules/commonm"
 	"github.com/goatcms/goatcore/app/modules/ocm"
+	"github.com/goatcms/goatcore/app/modules/ocm/ocservices"
+	"github.com/goatcms/goatcore/app/modules/ocm/ocservices/dcmd"
 	"github.com/goatcms/goatcore/app/modules/pipelinem"
+	"github.com/goatcms/goatcore/app/modules/pipelinem/pipservices"
 	"github.com/goatcms/goatcore/app/modules/terminalm"
 	"github.com/goatcms/goatcore/app/modules/terminalm/termservices"
 	"github.com/goatcms/goatcore/app/scope"
@@ -43,6 +46,7 @@ type Cmd struct {
 	Succ []Cmd  `json:"succ,omitempty"` // try: success handler (defined iff non-empty)
 	Fail []Cmd  `json:"fail,omitempty"` // try: fail handler
 	Fin  []Cmd  `json:"fin,omitempty"`  // try: finally handler
+	SB   string `json:"sb,omitempty"`   // run: "" self sandbox | "ctl" harness sandbox that runs the body through the terminal (control) | "broken" harness sandbox whose Run returns an error without touching the scope | "container" container:<image> (the real command line engine refuses the in-memory working directory before it executes anything)
 	Q    bool   `json:"q,omitempty"`    // run / try: single-probe sections are spelled "quoted" instead of as here-documents
 }
 
@@ -69,11 +73,12 @@ var secName = [4]string{"body", "success", "fail", "finally"}
 type ancRef struct{ try, sec int }
 
 type probeInfo struct {
-	id   int
-	ctx  int
-	fail bool
-	d    int
-	anc  []ancRef // enclosing (try, section) pairs, outermost first
+	id    int
+	ctx   int
+	fail  bool
+	setup bool // pseudo probe: a nested task whose sandbox fails at set-up
+	d     int
+	anc   []ancRef // enclosing (try, section) pairs, outermost first
 }
 
 type tryInfo struct {
@@ -95,6 +100,8 @@ type index struct {
 	ctxParent []int // ctxParent[c] = enclosing context, -1 for the surrounding scope's context 0
 	script    string
 	nodes     int
+	sbKind    map[int]string
+	ctl       bool
 }
 
 func term(id int) string {
@@ -136,7 +143,26 @@ func (b *builder) script(sb *strings.Builder, cmds []Cmd, ctx int, anc []ancRef,
 			b.ix.probeIDs = append(b.ix.probeIDs, id)
 			fmt.Fprintf(sb, "%sp --id=%d\n", indent, id)
 		case "run":
-			fmt.Fprintf(sb, "%spip:run --name=r%d --silent=%s --body=", indent, id, silent)
+			sandbox := ""
+			switch c.SB {
+			case "ctl":
+				sandbox = fmt.Sprintf(" --sandbox=c16ctl:%d", id)
+			case "broken":
+				sandbox = fmt.Sprintf(" --sandbox=c16broken:%d", id)
+			case "container":
+				sandbox = fmt.Sprintf(" --sandbox=container:c16img%d", id)
+			}
+			if c.SB == "ctl" {
+				b.ix.ctl = true
+			}
+			if c.SB == "broken" || c.SB == "container" {
+				b.ix.sbKind[id] = c.SB
+				// the task fails while its sandbox is set up: modelled as a failing command of the
+				// enclosing context whose begin/end events are written by the harness sandbox / engine
+				b.ix.probes[id] = &probeInfo{id: id, ctx: ctx, fail: true, setup: true, anc: append([]ancRef(nil), anc...)}
+				b.ix.probeIDs = append(b.ix.probeIDs, id)
+			}
+			fmt.Fprintf(sb, "%spip:run --name=r%d --silent=%s%s --body=", indent, id, silent, sandbox)
 			b.section(sb, c.Body, ctx, anc, id, secBody, c.Q, indent)
 			sb.WriteString("\n")
 		case "try":
@@ -182,7 +208,7 @@ func hasTry(cmds []Cmd) bool {
 }
 
 func buildIndex(c Case) *index {
-	ix := &index{probes: map[int]*probeInfo{}, ctxParent: []int{-1}}
+	ix := &index{probes: map[int]*probeInfo{}, ctxParent: []int{-1}, sbKind: map[int]string{}}
 	b := &builder{ix: ix, loud: c.Loud}
 	var sb strings.Builder
 	b.script(&sb, c.Script, 0, nil, "")
@@ -204,6 +230,9 @@ func wellFormed(cmds []Cmd, depth int) bool {
 			}
 		case "run":
 			if len(c.Body) == 0 || len(c.Succ)+len(c.Fail)+len(c.Fin) != 0 || !wellFormed(c.Body, depth+1) {
+				return false
+			}
+			if c.SB != "" && c.SB != "ctl" && c.SB != "broken" && c.SB != "container" {
 				return false
 			}
 		case "try":
@@ -229,6 +258,7 @@ type recorder struct {
 	mu     sync.Mutex
 	events []event
 	bad    int // probe invocations with an unknown id
+	ranSB  int // failing sandboxes that did not fail (the container engine really started something)
 }
 
 func (r *recorder) add(id int, begin bool) {
@@ -267,6 +297,71 @@ func (l *lockedBuf) String() string {
 	defer l.mu.Unlock()
 	return string(l.b)
 }
+
+// harness sandboxes -------------------------------------------------------------------
+
+type sbBuilder struct {
+	prefix string
+	build  func(id int) pipservices.Sandbox
+}
+
+func (b sbBuilder) Is(name string) bool { return strings.HasPrefix(name, b.prefix) }
+func (b sbBuilder) Build(name string) (pipservices.Sandbox, error) {
+	id, err := strconv.Atoi(name[len(b.prefix):])
+	if err != nil {
+		return nil, err
+	}
+	return b.build(id), nil
+}
+
+type sbFunc func(ctx app.IOContext) error
+
+func (f sbFunc) Run(ctx app.IOContext) error { return f(ctx) }
+
+// recEngine records the begin/end of a container run and delegates to the real command line engine.
+type recEngine struct {
+	inner ocservices.Engine
+	rec   *recorder
+}
+
+func (e recEngine) Run(c ocservices.Container) error {
+	id, _ := strconv.Atoi(strings.TrimPrefix(c.Image, "c16img"))
+	e.rec.add(id, true)
+	err := e.inner.Run(c)
+	if err == nil {
+		e.rec.mu.Lock()
+		e.rec.ranSB++
+		e.rec.mu.Unlock()
+	}
+	e.rec.add(id, false)
+	return err
+}
+
+func installSandboxes(mapp *goatapp.MockupApp, term termservices.Terminal, rec *recorder) error {
+	var deps struct {
+		Sandboxes pipservices.SandboxesManager `dependency:"PipSandboxesManager"`
+		OCManager ocservices.Manager           `dependency:"OCManager"`
+	}
+	if err := mapp.DependencyProvider().InjectTo(&deps); err != nil {
+		return err
+	}
+	// control: behaves like the self sandbox
+	deps.Sandboxes.Add(sbBuilder{"c16ctl:", func(id int) pipservices.Sandbox {
+		return sbFunc(func(ctx app.IOContext) error { return term.RunLoop(ctx, "") })
+	}})
+	// fails while it is set up: the error is returned to the runner, the scope is not touched
+	deps.Sandboxes.Add(sbBuilder{"c16broken:", func(id int) pipservices.Sandbox {
+		return sbFunc(func(ctx app.IOContext) error {
+			rec.add(id, true)
+			rec.add(id, false)
+			return errSetup
+		})
+	}})
+	deps.OCManager.SetDefaultEngine(recEngine{inner: dcmd.NewEngine("docker"), rec: rec})
+	return nil
+}
+
+var errSetup = errors.New("sandbox can not be set up")
 
 func newApp() (mapp *goatapp.MockupApp, term termservices.Terminal, err error) {
 	if mapp, err = goatapp.NewMockupApp(goatapp.Params{Name: "c16", Arguments: []string{"c16"}}); err != nil {
@@ -342,6 +437,9 @@ func run(c Case) hx.Verdict {
 		return inconclusive("bootstrap-failed")
 	}
 	rec := &recorder{}
+	if err = installSandboxes(mapp, term, rec); err != nil {
+		return inconclusive("bootstrap-failed")
+	}
 	mapp.Terminal().SetCommand(terminal.NewCommand(terminal.CommandParams{
 		Name: "p",
 		Help: "harness probe",
@@ -354,7 +452,7 @@ func run(c Case) hx.Verdict {
 			}
 			id, _ := strconv.Atoi(deps.ID)
 			p := ix.probes[id]
-			if p == nil {
+			if p == nil || p.setup {
 				rec.mu.Lock()
 				rec.bad++
 				rec.mu.Unlock()
@@ -436,10 +534,13 @@ func run(c Case) hx.Verdict {
 			c.Ctx, c.Procs, ix.script, log, complete, atomic.LoadInt32(&oc.stage), oc.scopeErr, oc.appErr, outBuf.String())
 	}
 	rec.mu.Lock()
-	bad := rec.bad
+	bad, ranSB := rec.bad, rec.ranSB
 	rec.mu.Unlock()
 	if bad != 0 {
 		return inconclusive("unknown-probe-id")
+	}
+	if ranSB != 0 {
+		return inconclusive("container-engine-did-not-refuse")
 	}
 	v := judge(c, ix, log, complete, oc)
 	if !complete {
@@ -707,6 +808,27 @@ func judge(c Case, ix *index, log []event, complete bool, oc outcome) hx.Verdict
 	}
 	if c.Loud {
 		v.Label("loud")
+	}
+	sbSeen := map[string]bool{}
+	for _, id := range ix.probeIDs {
+		p := ix.probes[id]
+		if !p.setup || !began(id) {
+			continue
+		}
+		where := "handler"
+		if len(p.anc) > 0 && p.anc[len(p.anc)-1].sec == secBody {
+			where = "body"
+		} else if len(p.anc) == 0 {
+			where = "top"
+		}
+		sbSeen["task-fails-at-sandbox-setup:"+where] = true
+		sbSeen["sandbox:"+ix.sbKind[id]] = true
+	}
+	if ix.ctl {
+		sbSeen["sandbox:control"] = true
+	}
+	for l := range sbSeen {
+		v.Label(l)
 	}
 	return v
 }
